@@ -354,6 +354,11 @@ def evaluate_z3_re_comp(expr: z3.ExprRef, _) -> Maybe[Z3EvalResult]:
     ):
         return Nothing
 
+    # The complement of a character class is not "one other character" (it contains
+    # the empty string and all longer strings), and it cannot be expressed
+    # compositionally as a Python regex: leave it to Z3.
+    return Nothing
+
     maybe_children_result: Maybe[Tuple[Z3EvalResult]] = result_to_maybe(
         reduce(
             lambda acc, maybe_child_result: acc.map(
